@@ -116,7 +116,6 @@ def dpCrashAppend (st0 : Store) (ref body : Bytes) (keep : Nat) (np row : Bool) 
     let last := st0.packs.getLast?.getD []
     let rollover := decide (last.length + total > st0.maxSize)
     if keep > total then none
-    else if row && !(keep == total) then none
     else if np && !(rollover && keep == total) then none
     else some (st0.crashAppend ref body keep np row)
 
